@@ -4,6 +4,7 @@ package main
 
 import (
 	"fmt"
+	"go/token"
 	"go/types"
 	"sort"
 	"strings"
@@ -27,6 +28,17 @@ func (x *Exec) setResult(res ssa.Value, sig *types.Signature, terms []string) {
 func (x *Exec) call(st *State, in ssa.Instruction, cc *ssa.CallCommon, res ssa.Value) {
 	vc := x.vc
 	if b, ok := cc.Value.(*ssa.Builtin); ok {
+		if x.con != nil && len(x.con.Asserts) > 0 {
+			site := fmt.Sprintf("builtin %s#%d", b.Name(), x.siteOrdinal(in, "builtin "+b.Name()))
+			for _, cl := range x.con.Asserts[site] {
+				env := x.newEnv(st, x.oldOf(st))
+				for i, a := range cc.Args {
+					env.names[fmt.Sprintf("arg%d", i)] = val{x.value(a), a.Type(), x.vc.sortOf(a.Type())}
+				}
+				t := env.evalBool(cl.Expr)
+				x.obligeClause("assert", site+"/"+clauseLabel(cl), st.reach, t, cl)
+			}
+		}
 		x.builtin(st, in, b, cc, res)
 		return
 	}
@@ -44,13 +56,15 @@ func (x *Exec) call(st *State, in ssa.Instruction, cc *ssa.CallCommon, res ssa.V
 	}
 	tgt := x.g.resolve(x, cc)
 	siteName := tgt.display
-	ord := x.callOrd[siteName]
-	x.callOrd[siteName] = ord + 1
+	ord := x.siteOrdinal(in, "call "+siteName)
 	site := fmt.Sprintf("call %s#%d", siteName, ord)
 	// site assertions from the caller's contract
 	if x.con != nil {
 		for _, cl := range x.con.Asserts[site] {
 			env := x.newEnv(st, x.oldOf(st))
+			if in != nil {
+				env.atBlock = in.Block()
+			}
 			env.bindCallArgs(tgt, recv, args)
 			t := env.evalBool(cl.Expr)
 			x.obligeClause("assert", site+"/"+clauseLabel(cl), st.reach, t, cl)
@@ -96,6 +110,13 @@ func (x *Exec) call(st *State, in ssa.Instruction, cc *ssa.CallCommon, res ssa.V
 		} else {
 			vc.note("unknown callee: all modelled state havocked: " + tgt.display + " (in " + x.fn.String() + ")")
 			vc.havocAll(st)
+		}
+		if tgt.external {
+			on := vc.getNext(st)
+			nn := vc.fresh("next", sInt)
+			vc.assert(app(">=", nn, on))
+			st.comp["next"] = nn
+			x.rtypeAfterCall(st, nil, tgt, on, nn)
 		}
 		var results []string
 		for i := 0; i < sig.Results().Len(); i++ {
@@ -181,6 +202,7 @@ func (x *Exec) applyContract(st *State, in ssa.Instruction, tgt *target, recv *v
 	nn := vc.fresh("next", sInt)
 	vc.assert(app(">=", nn, oldNext))
 	st.comp["next"] = nn
+	x.rtypeAfterCall(st, c, tgt, oldNext, nn)
 	// 3. results
 	var results []string
 	for i := 0; i < sig.Results().Len(); i++ {
@@ -189,6 +211,19 @@ func (x *Exec) applyContract(st *State, in ssa.Instruction, tgt *target, recv *v
 		x.assumeType(st, r, rt)
 		x.assumeUnowned(st, r, rt)
 		results = append(results, r)
+	}
+	// 3a. retained slices: their backing arrays are frozen from now on
+	for _, fe := range c.Freezes {
+		env := x.newEnvFor(pre, pre, tgt.pkg)
+		env.bindCallArgs(tgt, recv, args)
+		env.callee = tgt
+		v := env.eval(fe)
+		if v.srt != sSlice {
+			panic(contractErr("freezes: not a slice"))
+		}
+		vc.regComp("Frozen", "(Array Int Bool)")
+		x.g.usesFrozen = true
+		vc.set(st, "Frozen", ite(eq(app("s_arr", v.t), "0"), vc.get(st, "Frozen"), store(vc.get(st, "Frozen"), app("s_arr", v.t), "true")))
 	}
 	// 3b. declared ghost effects
 	for _, ef := range c.Effects {
@@ -224,6 +259,15 @@ func (x *Exec) applyMod(st *State, env *Env, m *ModItem) {
 	switch {
 	case m.All:
 		vc.havocAll(st)
+	case m.MapHeap:
+		mv := env.eval(m.Expr)
+		mt, ok := mv.typ.Underlying().(*types.Map)
+		if !ok {
+			panic(contractErr("mapheap() of non-map"))
+		}
+		for _, comp := range []string{vc.mapDom(mt), vc.mapVal(mt)} {
+			st.comp[comp] = vc.fresh(strings.Trim(comp, "|")+"_h", vc.reg().sorts[comp])
+		}
 	case m.Heap != "":
 		comp := env.compByName(m.Heap)
 		if comp == "" {
@@ -236,7 +280,12 @@ func (x *Exec) applyMod(st *State, env *Env, m *ModItem) {
 			srt := vc.reg().sorts[cr.comp]
 			es := strings.TrimSuffix(strings.TrimPrefix(srt, "(Array Int "), ")")
 			f := vc.fresh("hv", es)
-			vc.set(st, cr.comp, store(cur, cr.ref, f))
+			if m.MapOf || m.Elems {
+				// a nil map / nil slice has no contents to modify
+				vc.set(st, cr.comp, ite(eq(cr.ref, "0"), cur, store(cur, cr.ref, f)))
+			} else {
+				vc.set(st, cr.comp, store(cur, cr.ref, f))
+			}
 		}
 	}
 }
@@ -523,6 +572,8 @@ func (x *Exec) inline(st *State, tgt *target, args []val) []string {
 		prefix: x.prefix + "/in:" + fn.Name(), props: x.props, wrap: x.wrap, callOrd: map[string]int{}, closureOf: map[ssa.Value]*ssa.MakeClosure{},
 		con: x.g.inlineContract(fn)}
 	child.entry = st.clone()
+	child.entry0 = x.entry0
+	child.entryNext = x.entryNext
 	for i, p := range fn.Params {
 		if i < len(args) {
 			child.vals[p] = args[i].t
@@ -582,7 +633,15 @@ func (x *Exec) applyInvoke(st, pre *State, in ssa.Instruction, tgt *target, ic *
 	}
 	var fn *ssa.Function
 	var mc *ssa.MakeClosure
-	switch a := cc.Args[idx].(type) {
+	argv := cc.Args[idx]
+	for {
+		if ct, ok := argv.(*ssa.ChangeType); ok {
+			argv = ct.X
+			continue
+		}
+		break
+	}
+	switch a := argv.(type) {
 	case *ssa.MakeClosure:
 		mc = a
 		fn = a.Fn.(*ssa.Function)
@@ -693,6 +752,7 @@ func (x *Exec) applyInvoke(st, pre *State, in ssa.Instruction, tgt *target, ic *
 	nn := vc.fresh("next", sInt)
 	vc.assert(app(">=", nn, oldNext))
 	st.comp["next"] = nn
+	x.rtypeAfterCall(st, ccon, &target{pkg: fn.Pkg.Pkg}, oldNext, nn)
 	for i, cl := range ccon.Preserves {
 		after := mkEnv(st, pre).eval(cl.Expr)
 		vc.assert(implies(st.reach, eq(after.t, before[i].t)))
@@ -730,6 +790,137 @@ func (x *Exec) applyInvoke(st, pre *State, in ssa.Instruction, tgt *target, ic *
 	}
 }
 
+// rtypeAfterCall: struct-object tags after a callee ran: unchanged below the old allocation counter, zero beyond the
+// new one; in between whatever the callee's `allocates` clause admits (anything if it has none).
+func (x *Exec) rtypeAfterCall(st *State, c *Contract, tgt *target, oldNext, newNext string) {
+	vc := x.vc
+	if _, ok := vc.reg().sorts["RType"]; !ok {
+		return
+	}
+	old := vc.get(st, "RType")
+	nr := vc.fresh("RType", "(Array Int Int)")
+	vc.assert(fmt.Sprintf("(forall ((x Int)) (! (=> (or (< x %s) (>= x %s)) (= (select %s x) (select %s x))) :pattern ((select %s x))))", oldNext, newNext, nr, old, nr))
+	{
+		// default: no tracked struct objects are allocated (stubs and interfaces cannot make module-private types;
+		// verified functions are checked against their allocates clause)
+		alts := []string{eq("(select "+nr+" x)", "(select "+old+" x)")}
+		if c == nil {
+			c = &Contract{}
+		}
+		for _, tn := range c.Allocates {
+			env := x.newEnvFor(st, st, tgt.pkg)
+			t := env.resolveType(tn)
+			alts = append(alts, eq("(select "+nr+" x)", vc.structTID(t)))
+		}
+		vc.assert(fmt.Sprintf("(forall ((x Int)) (! %s :pattern ((select %s x))))", or(alts...), nr))
+	}
+	st.comp["RType"] = nr
+}
+
+// frozenCheck: writing into a backing array that some callee retained (contract clause `freezes`) is an error.
+func (x *Exec) frozenCheck(st *State, in ssa.Instruction, cond, arr string) {
+	if !x.g.anyFreezes() {
+		return
+	}
+	x.vc.regComp("Frozen", "(Array Int Bool)")
+	cur, entry := x.vc.get(st, "Frozen"), x.vc.get(x.entry0, "Frozen")
+	if cur == entry {
+		return // nothing was retained during this activation
+	}
+	x.implicit(st, in, "retained-array-written", implies(cond, or(not(sel(cur, arr)), sel(entry, arr))), "write into the backing array of a slice that a callee retained during this activation")
+}
+
+// siteOrdinal: the k-th call site of this callee in the function, in SOURCE order (stable under CFG reordering).
+func (x *Exec) siteOrdinal(in ssa.Instruction, key string) int {
+	if x.siteOrd == nil {
+		x.siteOrd = map[ssa.Instruction]int{}
+		type site struct {
+			in  ssa.Instruction
+			key string
+			pos token.Pos
+			seq int
+		}
+		var sites []site
+		seq := 0
+		for _, b := range x.fn.Blocks {
+			for _, i := range b.Instrs {
+				var cc *ssa.CallCommon
+				prefix := "call "
+				switch t := i.(type) {
+				case *ssa.Call:
+					cc = &t.Call
+				case *ssa.Defer:
+					cc = &t.Call
+				case *ssa.Go:
+					cc = &t.Call
+					prefix = "go "
+				}
+				if cc == nil {
+					continue
+				}
+				if bi, isB := cc.Value.(*ssa.Builtin); isB {
+					seq++
+					sites = append(sites, site{i, "builtin " + bi.Name(), i.Pos(), seq})
+					continue
+				}
+				seq++
+				sites = append(sites, site{i, prefix + x.g.resolve(x, cc).display, i.Pos(), seq})
+			}
+		}
+		sort.SliceStable(sites, func(a, b int) bool {
+			if sites[a].pos != sites[b].pos {
+				return sites[a].pos < sites[b].pos
+			}
+			return sites[a].seq < sites[b].seq
+		})
+		cnt := map[string]int{}
+		for _, s := range sites {
+			x.siteOrd[s.in] = cnt[s.key]
+			cnt[s.key]++
+		}
+	}
+	if k, ok := x.siteOrd[in]; ok {
+		return k
+	}
+	k := x.callOrd[key]
+	x.callOrd[key] = k + 1
+	return 1000 + k
+}
+
+// bindClosure makes the captured variables of closure mc visible (by name, state-dependent) in env.
+func (x *Exec) bindClosure(env *Env, fn *ssa.Function, mc *ssa.MakeClosure) {
+	vc := x.vc
+	if env.lazy == nil {
+		env.lazy = map[string]func(*Env) val{}
+	}
+	if env.capturedCell == nil {
+		env.capturedCell = map[string]func() (string, string){}
+	}
+	if mc == nil {
+		return
+	}
+	for i, fv := range fn.FreeVars {
+		b := mc.Bindings[i]
+		lv := x.lvalueForRead(b)
+		if lv == nil {
+			continue
+		}
+		et := fv.Type().Underlying().(*types.Pointer).Elem()
+		lvc := lv
+		if lvc.kind == "structref" {
+			// captured struct variable: denotes its address
+			ref := lvc.base
+			pt := fv.Type()
+			env.lazy[fv.Name()] = func(e *Env) val { return val{ref, pt, sInt} }
+			continue
+		}
+		env.lazy[fv.Name()] = func(e *Env) val { return val{vc.load(e.cur, lvc), et, vc.sortOf(et)} }
+		if lvc.kind == "cell" {
+			env.capturedCell[fv.Name()] = func() (string, string) { return vc.cellHeap(lvc.typ), lvc.base }
+		}
+	}
+}
+
 // spawnCheck: `go f(...)`: the spawned function's preconditions are obligations here.
 func (x *Exec) spawnCheck(st *State, g *ssa.Go) {
 	cc := &g.Call
@@ -737,8 +928,7 @@ func (x *Exec) spawnCheck(st *State, g *ssa.Go) {
 		return
 	}
 	tgt := x.g.resolve(x, cc)
-	ord := x.callOrd["go "+tgt.display]
-	x.callOrd["go "+tgt.display] = ord + 1
+	ord := x.siteOrdinal(g, "go "+tgt.display)
 	site := fmt.Sprintf("go %s#%d", tgt.display, ord)
 	var args []val
 	var recv *val
@@ -751,6 +941,7 @@ func (x *Exec) spawnCheck(st *State, g *ssa.Go) {
 	if x.con != nil {
 		for _, cl := range x.con.Asserts[site] {
 			env := x.newEnv(st, x.oldOf(st))
+			env.atBlock = g.Block()
 			env.bindCallArgs(tgt, recv, args)
 			t := env.evalBool(cl.Expr)
 			x.obligeClause("assert", site+"/"+clauseLabel(cl), st.reach, t, cl)
@@ -761,10 +952,20 @@ func (x *Exec) spawnCheck(st *State, g *ssa.Go) {
 			env := x.newEnvFor(st, st, tgt.pkg)
 			env.bindCallArgs(tgt, recv, args)
 			env.callee = tgt
+			if tgt.closure != nil {
+				x.bindClosure(env, tgt.fn, tgt.closure)
+			}
 			t := env.evalBool(cl.Expr)
-			o := &Obl{Name: x.prefix + "/pre/" + site + "/" + clauseLabel(cl), Kind: "pre", Props: x.props, Reach: st.reach, Goal: t, Src: "requires " + cl.Text}
-			o.Pos = x.g.fset.Position(g.Pos())
-			x.vc.oblige(o)
+			parts := splitAnd(t)
+			for pi, gl := range parts {
+				nm := clauseLabel(cl)
+				if len(parts) > 1 {
+					nm = fmt.Sprintf("%s.%d", nm, pi)
+				}
+				o := &Obl{Name: x.prefix + "/pre/" + site + "/" + nm, Kind: "pre", Props: x.props, Reach: st.reach, Goal: gl, Src: "requires " + cl.Text}
+				o.Pos = x.g.fset.Position(g.Pos())
+				x.vc.oblige(o)
+			}
 		}
 	}
 }
@@ -909,6 +1110,7 @@ func (x *Exec) appendBuiltin(st *State, in ssa.Instruction, cc *ssa.CallCommon, 
 	// in place: everything outside the written window keeps its content
 	vc.assert(implies(inplace, fmt.Sprintf("(forall ((k Int)) (! (=> (or (< k (+ %s %s)) (>= k (+ %s %s))) (= %s %s)) :pattern (%s)))", off, ln, off, newLen, I(newS, "k"), I(oldS, "k"), I(newS, "k"))))
 	vc.assert(implies(inplace, fmt.Sprintf("(forall ((o Int) (m Int)) (! (=> (and (<= 0 o) (<= 0 m) (or (<= (+ o m) (+ %s %s)) (>= o (+ %s %s)))) %s) :pattern (%s)))", off, ln, off, newLen, vc.sq("seq_eq", es, SL(newS, "o", "m"), SL(oldS, "o", "m")), SL(newS, "o", "m"))))
+	x.frozenCheck(st, in, and(inplace, not(eq(n, "0"))), arr)
 	vc.set(st, h, store(cur, rarr, newS))
 	r := app("mk_slice", rarr, roff, newLen, rcap)
 	// append(nil, nothing...) yields nil; appending nothing in general keeps the slice
